@@ -102,6 +102,59 @@ func runC02(c *Ctx) {
 	nV := intOpAudit(c, "C02-R12", vmPkg, "VM.executeInstruction", vmPath, "Opcode",
 		map[string]opClass{"OpLt": opOrdering, "OpLe": opOrdering, "OpGt": opOrdering, "OpGe": opOrdering, "OpAdd": opAdd, "OpSub": opSub, "OpMul": opMul}, "VM")
 	c.Sites["C02-R12#operator-arms"] = nI + nV
+	// == / != : where the interpreter's equality coerces int and float (it reaches CoerceNumeric), the VM's does too:
+	// its equality helper compares an integer payload, converted, with a float payload
+	{
+		interpCoerces := false
+		if eq := c.fn(interpPkg, "Interpreter.evaluateEq"); eq != nil {
+			interpCoerces = reachesInstr(eq, func(x ssa.Instruction) bool {
+				call, ok := x.(ssa.CallInstruction)
+				return ok && callName(call) == interpPath+".CoerceNumeric"
+			}, 0, map[*ssa.Function]bool{})
+		}
+		vmCoerces := false
+		var vmEq *ssa.Function
+		if ex := c.fn(vmPkg, "VM.execEq"); ex != nil {
+			var scan func(fn *ssa.Function, d int)
+			seen := map[*ssa.Function]bool{}
+			scan = func(fn *ssa.Function, d int) {
+				if fn == nil || seen[fn] || d > 2 || len(fn.Blocks) == 0 {
+					return
+				}
+				seen[fn] = true
+				eachInstr(fn, func(_ *ssa.BasicBlock, _ int, ins ssa.Instruction) {
+					switch x := ins.(type) {
+					case *ssa.BinOp:
+						if x.Op != token.EQL {
+							return
+						}
+						bt, ok := x.X.Type().Underlying().(*types.Basic)
+						if !ok || bt.Info()&types.IsFloat == 0 {
+							return
+						}
+						for _, pr := range [][2]ssa.Value{{x.X, x.Y}, {x.Y, x.X}} {
+							if cv, ok := pr[0].(*ssa.Convert); ok && intPayload(cv.X, 0) {
+								vmCoerces = true
+							}
+						}
+					case ssa.CallInstruction:
+						if sf := staticFn(x); sf != nil && sf.Pkg == fn.Pkg {
+							if sf.Signature.Results().Len() == 1 && sf.Signature.Results().At(0).Type().String() == "bool" && vmEq == nil {
+								vmEq = sf
+							}
+							scan(sf, d+1)
+						}
+					}
+				})
+			}
+			scan(ex, 0)
+			site := ex
+			if vmEq != nil {
+				site = vmEq
+			}
+			c.ob("C02-R12", fnKey(site)+"#numeric-equality-coerces-like-the-interpreter", site.Pos(), !interpCoerces || vmCoerces, "the interpreter's == / != compare an int and a float as numbers (CoerceNumeric) but the VM's equality only compares values of the same kind: `1 == 1.0` is true interpreted and false compiled, and so are `input.n / 2 == 2` for the JSON body {\"n\": 4.0}, `switch 2.0 { case 2 … }` and literal match patterns - while the VM's own <, <=, >, >= do coerce")
+		}
+	}
 	c.floor("C02-R12", 12)
 	c.rule("C02-R11", "SIB: forms that the interpreter treats specially are treated specially by the compiler: (a) the interpreter evaluates the right operand of && / || only when the left one does not decide (a conditional return between the two EvaluateExpression calls) - the compiler emits a conditional jump between compiling the two operands; (b) the interpreter's assign / reassign arms dispatch on a '.' in the target (field store) - the compiler's arms test for it too and report the form as unsupported instead of storing into a variable of that name")
 	{
